@@ -13,6 +13,7 @@ import HealSparse.Model.FitsIO
 import HealSparse.Props.C04
 import HealSparse.Props.C10
 import HealSparse.Lemmas.ApiRoundTrip
+import HealSparse.Lemmas.TypedWorld
 namespace HS
 namespace C03
 
@@ -110,8 +111,9 @@ FINDING (model level).  "For every `m.Ok`, reading back what was written returns
 sentinel, and the reader decides the kind from the header alone.  `api_read_write_full_false`
 is the counterexample (an int32 map object with sentinel `False` comes back as a boolean map;
 `RoundTrip.oddDtMap`, an `int12` map, comes back as int8; `RoundTrip.hugeDtMap`, `int128`, is
-refused).  No protocol constructor builds such objects, so this is a gap of the invariant, not
-an observed defect of the library.  The exact condition is `MapObj.FileTyped`
+refused).  No protocol constructor builds such objects — PROVED: `World.Typed`
+(Lemmas/TypedWorld.lean) is a global inductive invariant, so `reachable_read_write_full` below is
+unconditional — hence this is a property of unreachable objects, not a defect of the library.  The exact condition is `MapObj.FileTyped`
 (`api_read_write_full_iff`); under `SentOK` alone (hence for every `m.Ok`, hence in every
 reachable world) the CONTENT still round-trips (`api_read_write_full_content`,
 `reachable_write_read_content`). -/
@@ -525,6 +527,71 @@ theorem reachable_write_read_content (lines : List String) (n : String) (m : Map
   unfold MapObj.abs
   rw [h6, h7, h9 hp]
 
+/-! ### unconditional for reachable maps (`World.Typed`, Lemmas/TypedWorld.lean)
+
+`MapObj.FileTyped` is part of a global inductive invariant of the protocol driver
+(`GoodTyped.runLines`): every map any protocol history can produce — owning or view — is typed
+the way a file can express.  So the full round trip needs no hypothesis on reachable maps. -/
+
+/-- **(a), every reachable map**: whatever name resolves to `m` after any protocol history,
+    writing `m` and reading the file back returns `m` exactly (cache reset, owning) -/
+theorem reachable_read_write_full (lines : List String) (n : String) (m : MapObj)
+    (h : (runLines lines).get? n = some m) (md : List (String × String)) :
+    apiRead (apiWrite m md) none = .ok { m with cache := none, view := none } :=
+  api_read_write_full_partial m md (reachable_fileTyped lines h)
+
+/-- **(b), every reachable map**: the partial read is refused exactly for duplicates or a request
+    naming no covered pixel, and otherwise returns the restriction, with the map's own kind -/
+theorem reachable_read_pixels (lines : List String) (n : String) (m : MapObj)
+    (h : (runLines lines).get? n = some m) (md : List (String × String)) (px : List Nat) :
+    (apiRead (apiWrite m md) (some px) = .error .runtime ↔ (¬ px.Nodup ∨ ¬ Requested m px)) ∧
+    (px.Nodup → Requested m px →
+      ∃ m', apiRead (apiWrite m md) (some px) = .ok m' ∧
+        m' = { m with st := m'.st, cache := none, view := none } ∧ m'.Ok ∧
+        (∀ p, p < m.npix → m'.abs p =
+            if decide ((p >>> m.c.shift) ∈ px) && covered m.c m.st (p >>> m.c.shift) then m.abs p
+            else m.kind.blank m.sent) ∧
+        (∀ j, j < m.c.ncov → covered m'.c m'.st j = (decide (j ∈ px) && covered m.c m.st j))) := by
+  have ht := reachable_fileTyped lines h
+  have hok : m.Ok := (Good.runLines lines).get h
+  refine ⟨api_read_pixels_error_iff_typed m md px ht, fun hnd hreq => ?_⟩
+  obtain ⟨m', hr, he, _, _, hko, habs, hcov⟩ := api_read_pixels_spec_typed m md px hok.1 ht hnd hreq
+  exact ⟨m', hr, he, hko hok.2.1, habs, hcov⟩
+
+/-- **the protocol-level round trip**: in ANY reachable world, `write n f=F` followed by
+    `read f=F r=R` answers `ok` / `ok`, binds `R` to exactly the map `n` resolved to (cache reset,
+    owning its storage), carries the user metadata over, and `vals R` / `valid R` answer the very
+    strings `vals n` / `valid n` answered before -/
+theorem reachable_write_read_world (lines : List String) (aW aR : Args) (n : String)
+    (rest : List String) (m : MapObj)
+    (hpos : aW.pos = n :: rest) (hget : (runLines lines).get? n = some m)
+    (hf : aR.getD "f" "f" = aW.getD "f" "f") (hpx : aR.get? "pixels" = none) :
+    (stepArgs (runLines lines) "write" aW).2 = "ok" ∧
+    (stepArgs (stepArgs (runLines lines) "write" aW).1 "read" aR).2 = "ok" ∧
+    (stepArgs (stepArgs (runLines lines) "write" aW).1 "read" aR).1.get? (aR.getD "r" "tmp")
+      = some { m with cache := none, view := none } ∧
+    (stepArgs (stepArgs (runLines lines) "write" aW).1 "read" aR).1.metaOf (aR.getD "r" "tmp")
+      = (runLines lines).metaOf n ∧
+    ∀ (aV aV' : Args) (r1 r2 : List String), aV.pos = aR.getD "r" "tmp" :: r1 → aV'.pos = n :: r2 →
+      (stepArgs (stepArgs (stepArgs (runLines lines) "write" aW).1 "read" aR).1 "vals" aV).2
+        = (stepArgs (runLines lines) "vals" aV').2 ∧
+      (stepArgs (stepArgs (stepArgs (runLines lines) "write" aW).1 "read" aR).1 "valid" aV).2
+        = (stepArgs (runLines lines) "valid" aV').2 := by
+  have hr := reachable_read_write_full lines n m hget ((runLines lines).metaOf n)
+  obtain ⟨h1, h2, h3, h4⟩ := world_write_read (runLines lines) aW aR n rest m _ none hpos hget hf
+    (Or.inl ⟨hpx, rfl⟩) hr
+  refine ⟨h1, h2, h3, h4, ?_⟩
+  intro aV aV' r1 r2 hV hV'
+  rw [stepArgs_vals, stepArgs_vals, stepArgs_valid, stepArgs_valid,
+    opVals_eq _ aV _ r1 _ hV h3, opVals_eq _ aV' n r2 m hV' hget,
+    opValid_eq _ aV _ r1 _ hV h3, opValid_eq _ aV' n r2 m hV' hget]
+  refine ⟨rfl, ?_⟩
+  have e : validPixels ({ m with cache := none, view := none } : MapObj).c
+      ({ m with cache := none, view := none } : MapObj).vc
+      ({ m with cache := none, view := none } : MapObj).st = validPixels m.c m.vc m.st := rfl
+  rw [e]
+  cases validPixels m.c m.vc m.st <;> rfl
+
 /-! ### non-vacuity (API level) -/
 
 section examples
@@ -728,6 +795,36 @@ def producersCheck : Bool :=
 
 #guard producersCheck
 #guard (runLines producersHistory).pool.length == 31
+
+
+/-- the reachable theorems instantiated on the producers' history: every name of that world —
+    views included — round-trips, by the THEOREM (the `#guard` above evaluates the same fact) -/
+example (n : String) (m : MapObj) (h : (runLines producersHistory).get? n = some m) :
+    apiRead (apiWrite m []) none = .ok { m with cache := none, view := none } :=
+  reachable_read_write_full producersHistory n m h []
+
+/-- the protocol-level history evaluated: write / read, then `vals` and `valid` on both names -/
+def roundTripHistory : List String := [
+  "cfg m kind=rec fields=b1,f4 primary=0 covord=0 spord=1", "upd m pix=21,40 vals=r1;5^1,r1;3",
+  "write m f=F", "read f=F r=q", "vals m", "vals q", "valid m", "valid q",
+  "single m field=1 r=v", "write v f=G", "read f=G r=qv", "vals v", "vals qv"]
+
+/-- the answers of a history -/
+def answersOf (lines : List String) : List String :=
+  (lines.foldl (fun (wo : World × List String) l => ((step wo.1 l).1, wo.2 ++ [(step wo.1 l).2]))
+    ({}, [])).2
+
+#guard (let a := answersOf roundTripHistory
+        a.take 4 == ["ok", "ok", "ok", "ok"] && a[4]? == a[5]? && a[6]? == a[7]? &&
+        a[6]? == some "21,40" && a[8]? == some "ok" && a[11]? == a[12]?)
+
+/-- the protocol-level theorem instantiated with concrete argument records in an arbitrary
+    reachable world holding a map under `m` -/
+example (lines : List String) (m : MapObj) (hget : (runLines lines).get? "m" = some m) :
+    (stepArgs (stepArgs (runLines lines) "write" ⟨["m"], [("f", "F")]⟩).1 "read"
+        ⟨[], [("f", "F"), ("r", "q")]⟩).1.get? "q" = some { m with cache := none, view := none } :=
+  (reachable_write_read_world lines ⟨["m"], [("f", "F")]⟩ ⟨[], [("f", "F"), ("r", "q")]⟩ "m" [] m
+    rfl hget (by decide +kernel) (by decide +kernel)).2.2.1
 
 end examples
 
